@@ -343,7 +343,19 @@ class GAM(Core, MetaTermMixin):
         log-likelihood : np.array of shape (n,)
             containing log-likelihood scores
         """
+        if not self._is_fitted:
+            raise AttributeError('GAM has not been fitted. Call fit first.')
+
         y = check_y(y, self.link, self.distribution, verbose=self.verbose)
+        X = check_X(
+            X,
+            n_feats=self.statistics_['m_features'],
+            edge_knots=self.edge_knots_,
+            dtypes=self.dtype,
+            features=self.feature,
+            verbose=self.verbose,
+        )
+        check_X_y(X, y)
         mu = self.predict_mu(X)
 
         if weights is not None:
@@ -2857,7 +2869,19 @@ class PoissonGAM(GAM):
         log-likelihood : np.array of shape (n,)
             containing log-likelihood scores
         """
+        if not self._is_fitted:
+            raise AttributeError('GAM has not been fitted. Call fit first.')
+
         y = check_y(y, self.link, self.distribution, verbose=self.verbose)
+        X = check_X(
+            X,
+            n_feats=self.statistics_['m_features'],
+            edge_knots=self.edge_knots_,
+            dtypes=self.dtype,
+            features=self.feature,
+            verbose=self.verbose,
+        )
+        check_X_y(X, y)
         mu = self.predict_mu(X)
 
         if weights is not None:
